@@ -73,7 +73,7 @@ def main():
             results.append(run_one(n, tier, True))
             print(results[-1]["name"], results[-1]["status"], results[-1].get("checks"), flush=True)
     else:
-        with cf.ThreadPoolExecutor(max_workers=4) as ex:
+        with cf.ThreadPoolExecutor(max_workers=int(os.environ.get('SEEDED_WORKERS', '4'))) as ex:
             for r in ex.map(lambda n: run_one(n, tier, False), names):
                 results.append(r)
                 print(r["name"], r["status"], "demo_fails=%s" % r.get("demo_fails_with_change"), r.get("checks"), flush=True)
@@ -84,6 +84,7 @@ def main():
     for r in results:
         r["tier"] = tier
         old[r["name"]] = r
+    old = {n: r for n, r in old.items() if os.path.isdir(os.path.join(SEEDED, n))}      # changes that were withdrawn
     json.dump(sorted(old.values(), key=lambda r: r["name"]), open(path, "w"), indent=1)
 
 
